@@ -290,4 +290,51 @@ example : Admissible [(Kind.p2pkh, 71), (Kind.p2tr, 64)] := by decide
 /-- a genuine "insufficient funds" -/
 example : authorPrefix [⟨50100, p2wpkhScript⟩] f5outs 1000 f4cs = .err .insufficient := by decide
 
+/-! ### wallet-level change script size (op `wchange`, round-4 seed C07-6) -/
+
+/-- class of the single input of an imported account of kind `k` -/
+def acctInputKind (k : AcctKind) : Kind := if k.nestedInput then .nested else .p2wpkh
+
+/-- The fee the wallet asks txauthor for, priced with the account's TRUE change script size
+    (`Author.walletChangeFee`: the account's schema override wins over the scope default), is at least the requested
+    rate applied to the real signed virtual size, for every admissible signature length, every output list and every
+    change output whose script has the account's real change script length. -/
+theorem C07_wallet_change_fee_lower (k : AcctKind) (rate : Int) (hr : 1000 ≤ rate) (outs : List TxOut) (chg : TxOut)
+    (hchg : (chg.PkScript.len : Int) = k.changeSize) (sig : Int) (h8 : 8 ≤ sig) (h72 : sig ≤ 72) :
+    SizesGen.FeeForSerializeSize rate (realVSize [(acctInputKind k, sig)] (outs ++ [chg])) ≤
+      walletChangeFee k rate outs := by
+  have hadm : Admissible [(acctInputKind k, sig)] := by
+    intro x hx
+    simp only [List.mem_singleton] at hx
+    subst hx
+    cases k <;> simp [acctInputKind, AcctKind.nestedInput, sigOK] <;> omega
+  have hcs : 0 < k.changeSize := by cases k <;> decide
+  have hle := realVSize_le_est true [(acctInputKind k, sig)] outs [chg] k.changeSize hadm hcs
+    (Or.inr ⟨chg, rfl, by omega⟩) (Or.inl rfl)
+  have hge := realVSize_ge [(acctInputKind k, sig)] (outs ++ [chg]) hadm
+  have e1 := C07_gen_fee.fee_eq rate (realVSize [(acctInputKind k, sig)] (outs ++ [chg])) (by omega) (by omega)
+  have hest : walletChangeEstimate k outs =
+      est true (kcount .p2pkh [(acctInputKind k, sig)]) (kcount .p2tr [(acctInputKind k, sig)])
+        (kcount .p2wpkh [(acctInputKind k, sig)]) (kcount .nested [(acctInputKind k, sig)]) outs k.changeSize := by
+    have key : ∀ w n cs : Int, 0 ≤ w → 0 ≤ n →
+        SizesGen.EstimateVirtualSize 0 0 w n outs cs = est true 0 0 w n outs cs := by
+      intro w n cs hw hn
+      exact C07_gen_est.est_eq 0 0 w n outs cs (by decide) (by decide) hw hn
+    cases k <;> simp [walletChangeEstimate, acctInputKind, AcctKind.nestedInput, kcount, key]
+  have e2 := C07_gen_fee.fee_eq rate (walletChangeEstimate k outs) (by omega) (by rw [hest]; omega)
+  simp only [genCfg] at e1 e2
+  unfold walletChangeFee
+  rw [e1, e2, hest]
+  exact feeFor_mono hr (by omega) hle
+
+-- the seeded edit's estimate (scope default, 22 bytes) for the traditional BIP-0049 account is too low:
+-- the demo's transaction (rate 50000) pays 8200 < 8250
+set_option maxRecDepth 100000 in
+example : SizesGen.FeeForSerializeSize 50000
+      (SizesGen.EstimateVirtualSize 0 0 0 1 [⟨400000, p2wpkhScript⟩] 22) <
+    walletChangeFee .imp49n 50000 [⟨400000, p2wpkhScript⟩] := by decide
+
+set_option maxRecDepth 100000 in
+example : walletChangeFee .imp49n 50000 [⟨400000, p2wpkhScript⟩] = 8250 := by decide
+
 end C07
